@@ -278,6 +278,10 @@ pub struct Scenario {
     /// stated bound: explore all histories of at most this many events (0 = unbounded)
     #[serde(default)]
     pub depth_bound: usize,
+    /// the automatic allocator may ask the scheduler at any moment what new workers it could use
+    /// (`ServerRef::new_worker_query`, what every autoalloc tick does)
+    #[serde(default)]
+    pub worker_query: bool,
 }
 
 impl Scenario {
@@ -294,6 +298,7 @@ impl Scenario {
             launch_failures: vec![],
             max_states: 400_000,
             depth_bound: 0,
+            worker_query: false,
         }
     }
     pub fn prefill(mut self, reserve: u32, max: u32) -> Self {
@@ -328,6 +333,10 @@ impl Scenario {
     }
     pub fn cap(mut self, n: u64) -> Self {
         self.max_states = n;
+        self
+    }
+    pub fn worker_query(mut self) -> Self {
+        self.worker_query = true;
         self
     }
 }
